@@ -96,6 +96,11 @@ class H:
     def __repr__(self):
         return 'H(f%d, %r, %r)' % (self.fn, self.args, self.kwargs)
 
+    def __jug_hash__(self):
+        # structural: an H passed as a plain argument (the value a bvalue() returned) must hash by content, not by how
+        # its parts happen to be shared in memory (jug pickles unknown objects, and pickle memoises shared sub-objects)
+        return jug.hash.hash_one(('jugv-H', self.fn, self.args, self.kwargs))
+
 
 def _keyc(k):
     if type(k) == int:
